@@ -66,6 +66,21 @@ Definition exported (m : module) (name : text) : bool :=
 Definition module_get (m : module) (name asking : text) : option val :=
   if exported m name || text_eqb asking (mod_name m) then assoc name (mod_defs m) else None.
 
+(* module names in the order of Rust's String comparison (lexicographic by code point) *)
+Fixpoint text_leb (a b : text) : bool :=
+  match a, b with
+  | [], _ => true
+  | _ :: _, [] => false
+  | x :: a', y :: b' => if x <? y then true else if y <? x then false else text_leb a' b'
+  end.
+Fixpoint insert_text (x : text) (l : list text) : list text :=
+  match l with
+  | [] => [x]
+  | y :: r => if text_leb x y then x :: l else y :: insert_text x r
+  end.
+Fixpoint sort_texts (l : list text) : list text :=
+  match l with [] => [] | x :: r => insert_text x (sort_texts r) end.
+
 Inductive gres := GOk (v : val) | GAmbiguous (ms : list text) | GNotFound.
 
 (* Memory::get_global : every module in which the name is visible to [asking] *)
@@ -82,7 +97,7 @@ Definition get_global (ms : list module) (name asking : text) : gres :=
   match visible_in ms name asking with
   | [] => GNotFound
   | [(_, v)] => GOk v
-  | l => GAmbiguous (map fst l)
+  | l => GAmbiguous (sort_texts (map fst l))
   end.
 
 Inductive fmres := FOk (v : val) | FNotFound | FNoModule.
@@ -94,7 +109,7 @@ Definition get_global_from_module (ms : list module) (name modname : text) : fmr
   end.
 
 Definition modules_defining (ms : list module) (name : text) : list text :=
-  map mod_name (filter (fun m => match assoc name (mod_defs m) with Some _ => true | None => false end) ms).
+  sort_texts (map mod_name (filter (fun m => match assoc name (mod_defs m) with Some _ => true | None => false end) ms)).
 
 Definition current_module (st : state) : module :=
   match find_module (cur st) (mods st) with Some m => m | None => Module (cur st) [] None end.
